@@ -20,7 +20,7 @@ CONFIGS = [
 
 SIGMA = [
     ('label', 'G0'), ('label', 'G1'), ('label', '_f0'), ('const', 'Z0', 0),
-    ('nop',), ('ldi', 'a', ('lab', 'K0')),
+    ('nop',), ('ldi', 'a', ('lab', 'K0')), ('m2', 5, ('lab', 'K0')),       # m2: a macro of two 12-bit steps (4 bytes)
     ('jmp', ('lab', 'G0')), ('jmp', ('lab+', 'G1', 1)), ('brr', ('lab', 'G0')), ('brr', ('lab', 'G1')),
     ('data', 1, [('lab', 'G1')]), ('data', 2, [('lab', 'G0'), ('lab+', '_f0', 2)]),
     ('fill', 3, 0x55), ('fill', 0, 1), ('zero', 2), ('zerountil', 9), ('zerountil', ('lab', 'K1')),
@@ -88,7 +88,7 @@ def build(hist):
 
 
 def moving(hist):
-    return any(s[0] in ('org', 'align', 'memzone', 'fill', 'zero', 'zerountil') for s in hist) and \
+    return any(s[0] in ('org', 'align', 'memzone', 'fill', 'zero', 'zerountil', 'm2') for s in hist) and \
         any(s[0] in ('jmp', 'brr', 'data') for s in hist)
 
 
